@@ -45,6 +45,18 @@ def make_cases(seed: int, tier: str, n_cases: int | None = None) -> list[dict]:
             k = r.randint(8, 12)
             names = [probe_names[(idx // 4 * 5 + j * 7 + seed) % len(probe_names)] for j in range(k)]
             pkg = probes.probe_package(sorted(set(names)))
+        elif idx % 16 == 6:
+            # layouts without any ordinary module that is analysed: only __init__ files (with code), or ordinary modules in
+            # test directories only (documented rejection without -tr, completion with it)
+            if (idx // 16) % 2 == 0:
+                files = {"onlyinit/__init__.py": "def top_level(a: int = 1) -> int:\n    ...\n", "onlyinit/sub/__init__.py": "class InInit:\n    x: int = 0\n"}
+                pkg = {"files": files, "src_rel": "onlyinit", "top": "onlyinit", "features": ["INIT_ONLY"], "doc_style": "PLAINTEXT", "seed": 0,
+                       "meta": {"tokens": {}, "probes": {}}, "name": "layout-onlyinit"}
+            else:
+                files = {"withtests/__init__.py": "", "withtests/tests/__init__.py": "", "withtests/tests/test_it.py": "def check(a: int) -> int:\n    ...\n",
+                         "withtests/docs/__init__.py": "", "withtests/docs/conf.py": "project = 'x'\n"}
+                pkg = {"files": files, "src_rel": "withtests", "top": "withtests", "features": ["TESTS_ONLY"], "doc_style": "PLAINTEXT", "seed": 0,
+                       "meta": {"tokens": {}, "probes": {}}, "name": "layout-withtests"}
         else:
             pkg = engine.case_package(cs, idx, corpus_every=16 if tier == "quick" else 25)
         options = workload.pick_options(r, pkg)
@@ -144,6 +156,11 @@ def judge_run(case: dict, hi: int, res: dict, role: str, ref: dict | None) -> li
         return viols
     if out == "timeout":
         v("non-termination", note="run exceeded the watchdog; re-run alone by the minimiser/replay before it is reported")
+        return viols
+    if out == "usage_error" and role in ("reference", "schedule", "rerun", "stale-leftover"):
+        # the harness always passes valid arguments: a run that ends in SystemExit(non-zero) without a fault neither completed
+        # nor rejected its input with the documented error
+        v("exit-without-result", exit_code=res.get("exit_code"), fingerprint={"gkey": "usage-exit"})
         return viols
     if out in ("harness_error", "not_loadable", "usage_error"):
         return viols
